@@ -20,7 +20,8 @@ PROP = {
                   "hypothesis VerifierRejects (a cryptographic assumption). The executable Lean primitives are validated by FIPS 180-4 / "
                   "FIPS 197 / SP 800-38A / RFC 4231 / RFC 4648 vectors (op `c14 selftest`) and by agreement with the Rust crates on every line. "
                   "Theorems are about the descriptor record; the XML text and the scanner are executed and compared, their round trip is not proved.",
-    "expect_theorems": ["C14_constants_match_source", "C14_no_panic", "C14_decrypts", "C14_verifier_hmac_len", "C14_sizes", "C14_declared_size",
+    "expect_theorems": ["C14_constants_match_source", "C14_hash_matches_source", "C14_info_matches_source", "C14_kdf_matches_source", "C14_iv_matches_source", "C14_package_matches_source",
+                        "C14_encrypt_parts_matches_source", "C14_no_panic", "C14_decrypts", "C14_verifier_hmac_len", "C14_sizes", "C14_declared_size",
                         "C14_declared_size_4GiB_fails", "C14_wrong_password"],
     "rule": "hook stream: convert_password_to_key (6 passwords x spin {0,1,2,3,50} x keyBits {256,128,512,520,8,0} x salts, one at spin 100000 = "
             "the crate's own test vector), create_iv (block sizes 0..100), crypt (good and panicking key/iv/input lengths), crypt_package on "
@@ -35,6 +36,11 @@ PROP = {
         "the cfb crate (compound-file container) on both the writing and the reading side; the zip/xlsx content of the package is opaque bytes here",
         "harness/src/ind.rs: independent Rust decryptor + tiny XML scanner (oracle side)",
         "cfg(umya_verif) hooks verif_convert_password_to_key / verif_create_iv / verif_crypt / verif_crypt_package are add-only wrappers of the private functions",
+        "translator tie (C14_*_matches_source): hash, convert_password_to_key, create_iv, crypt_package, build_encryption_info, encrypt_parts and the buffer "
+        "helpers are compiled from the current source and proved equal to the model for all arguments; read as externs: the Sha512 hasher (bytes fed so far, "
+        "finalize = sha512), the quick-xml writer (text written so far; write_start_tag / write_end_tag = the model's startTag / endTag), crypt (= the model's "
+        "crypt), hmac, base64, gen_random_N (k-th call = k-th value of an explicit stream); GenPrelude's rt_* model of slices / byteorder / to_le_bytes / encode_utf16; "
+        "the while loop of crypt_package runs on fuel input.len()+1 (shown sufficient)",
     ],
     "assumptions": ["Prims.Lawful P (see level_note)", "random material has the sizes gen_random_32/16/64 return (Randoms.wellFormed)",
                     "package length < 2^32 for C14_decrypts / C14_verifier_hmac_len (the code writes StreamSize as `len as u32`)",
